@@ -3,6 +3,7 @@ import BeffVerif.Props.C03NoThrow
 import BeffVerif.Props.C03Report
 import BeffVerif.Props.C03Parse
 import BeffVerif.Props.C03Declared
+import BeffVerif.Props.C03Idem
 open BeffVerif.C03
 #print axioms safeParse_success_iff_validate
 #print axioms safeParse_failure_iff_not_validate
@@ -22,3 +23,6 @@ open BeffVerif.C03
 #print axioms BeffVerif.C03S.parse_only_declared_frag
 #print axioms BeffVerif.C03S.obj_fold
 #print axioms BeffVerif.C03S.prim_strict_eq
+#print axioms BeffVerif.C03S.parse_idem
+#print axioms BeffVerif.C03S.rebuild
+#print axioms BeffVerif.C03S.obj_fold_nodup
